@@ -51,6 +51,8 @@ HAND = {
 HAND_BYTES = {
     # not UTF-8: read_vhdlfile falls back to ISO-8859-1, the fixed file is written as UTF-8
     "latin1_comment.vhd": b"-- caf\xe9\nENTITY  e4 IS\nEND ENTITY e4;\n",
+    # ... with the first non-ASCII byte far behind the first chunks of the utf-8 attempt (9 KiB of comment lines first)
+    "latin1_late.vhd": b"".join(b"-- filler line %04d of a long header comment\n" % i for i in range(220)) + b"ENTITY  e5 IS\nEND ENTITY e5;\n-- caf\xe9\n",
 }
 CLEAN = "\nentity fifo is\n  port (\n    a : in    std_logic;\n    b : out   std_logic\n  );\nend entity fifo;\n"
 PARSE_ERROR = "entity e is\n port (a : in std_logic\nend entity e\n\narchitecture a of e is begin end;\n"
@@ -171,14 +173,15 @@ def reference(sc):
     from vsg.exceptions import ClassifyError, ConfigurationError
     from vsg.vhdlFile import utils as vu
 
-    d = tempfile.mkdtemp(prefix="vsgverif-c16ref-")
+    # the lines of the ORIGINAL content, decoded independently of vsg's reader (utf-8, else ISO-8859-1 for the whole
+    # file; universal-newline splitting, `rstrip("\r\n")` per line — Lex/Lines.readLines): "the complete fixed content"
+    # is the fix of what the file held, not of what a faulty reader made of it
     try:
-        p = os.path.join(d, "t.vhd")
-        with open(p, "wb") as fh:
-            fh.write(sc["data"])
-        lines, err = vu.read_vhdlfile(p)
-    finally:
-        shutil.rmtree(d, ignore_errors=True)
+        text = sc["data"].decode("utf-8")
+    except UnicodeDecodeError:
+        text = sc["data"].decode("ISO-8859-1")
+    lines = [l.rstrip("\r\n") for l in io.StringIO(text, newline=None)]
+    err = None
     cla, cfg = _config(sc["conf"], sc["backup"], sc["fix"])
     nl = _linesep_bytes(sc["conf"])
     out = {"parse_ok": True, "config_ok": True, "had_violations": False, "fix_raises": False, "body": b"", "nl": nl}
@@ -741,6 +744,9 @@ def base_combos(tier, files):
                 for backup in (False, True):
                     for buffered in (True, False):
                         combos.append(dict(file=f, mode=m, backup=backup, buffered=buffered, conf=(), umask=0o022, stale_tmp=None, stale_bak=None))
+        # a file read through the ISO-8859-1 fallback whose first non-ASCII byte lies behind the first read chunks
+        if "latin1_late.vhd" in files:
+            combos.append(dict(file="latin1_late.vhd", mode=0o644, backup=False, buffered=False, conf=(), umask=0o022, stale_tmp=None, stale_bak=None))
         # one combination with a stale .tmp/.bak, another umask and CRLF line separator
         combos.append(dict(file=pick[0], mode=0o640, backup=True, buffered=True, conf=({"linesep": "\r\n"},), umask=0o077, stale_tmp=(0o600, b"stale tmp"), stale_bak=(0o666, b"stale bak")))
     else:
